@@ -130,9 +130,14 @@ def gen(ctx, size):
         ctx.add('sc.clamp', bytes(b).hex(), expect=[ref.clamp(bytes(b)).hex()], cls='clamp')
 
 
-def task(prop, seed, size, cfgbins):
+def make(seed, size):
     ctx = core.Ctx(seed, prefix='s%d_' % (seed % 100000))
     gen(ctx, size)
+    return ctx
+
+
+def task(prop, seed, size, cfgbins):
+    ctx = make(seed, size)
     return core.run_and_judge(prop, ctx, cfgbins)
 
 
